@@ -410,11 +410,16 @@ def _driver(spec):
             if argv.get("action") == "copy":
                 with open(argv["src"], "rb") as s:
                     content = s.read()
+                st = os.stat(argv["dst"]) if argv.get("preserve") and os.path.exists(argv["dst"]) else None
                 if os.path.islink(argv["dst"]):
                     os.unlink(argv["dst"])
                 with open(argv["dst"], "wb") as d:
                     d.write(content)
-                emit(ev="action", what="copy", dst=argv["dst"])
+                if st is not None:
+                    # deployed the way rsync -t / cp -p do: access and modification time of the replaced file are kept
+                    os.utime(argv["dst"], ns=(st.st_atime_ns, st.st_mtime_ns))
+                emit(ev="action", what="copy", dst=argv["dst"], preserved=st is not None,
+                     same_size=st is not None and st.st_size == len(content))
             elif argv.get("action") == "lib":
                 r = run_lib_inproc(argv["model"], argv["kernel"])
                 emit(ev="report", rc=r["rc"], exc=r["exc"])
